@@ -7,7 +7,7 @@ Open Scope N_scope.
 (* what the sweep does to one registered object, as a function of the object alone *)
 Definition close_effects (ob : hobj) (oid : nat) : list effect :=
   match o_kind ob with
-  | KRRReq => match o_fut ob with FPending => [XFut oid false] | _ => [] end
+  | KRRReq => match o_fut ob with FPending => [XFut oid false [] []] | _ => [] end
   | KRRResp => match o_fut ob with FPending => [XAppFutCancel oid] | _ => [] end
   | KRSReq => if o_has_sub ob then [XCb oid SError] else []
   | KRSResp => [XPub oid PCancelOp]
